@@ -17,6 +17,8 @@ def _set_current_fx(fx):
         c15.FX[0] = fx
     except ImportError:
         pass
+    import loops
+    loops.bind(fx)
 
 
 class Ctx:
